@@ -401,7 +401,7 @@ def dictdoc_kinds(sx, p):
 
 
 # ---------------------------------------------------------------- xsi:type on primitive and array elements
-from spyne.model.primitive import DateTime
+from spyne.model.primitive import DateTime, Uuid
 
 class InnerRec(ComplexModel):
     __namespace__ = 'tns'
@@ -416,6 +416,8 @@ class LeafHolder(ComplexModel):
     ints = Array(Integer)
     recs = Array(InnerRec)
     day = Date
+    u = Unicode
+    uid = Uuid
 
 
 class _LSvc(Service):
@@ -432,6 +434,10 @@ LPROTS = {'XmlDocument soft': XmlDocument(app=LAPP, validator='soft'), 'XmlDocum
 LEAF_SLOTS = {'dec': ('5', lambda v: isinstance(v, (decimal.Decimal, int)) and not isinstance(v, bool)), 'n': ('5', lambda v: isinstance(v, int) and not isinstance(v, bool)),
               'dt': ('2001-02-03T04:05:06', lambda v: isinstance(v, datetime.datetime)),
               'day': ('2001-02-03', lambda v: isinstance(v, datetime.date) and not isinstance(v, datetime.datetime)),
+              # the same members with content that is a literal of a type derived from theirs in spyne's class hierarchy
+              # (Date from DateTime, Uuid from Unicode): the retag must not change the native type that arrives
+              'dt as date text': ('2001-02-03', lambda v: isinstance(v, datetime.datetime)),
+              'u as uuid text': ('12345678-1234-5678-1234-567812345678', lambda v: isinstance(v, str)),
               'ints': (None, lambda v: isinstance(v, list) and all(isinstance(x, int) for x in v)),
               'recs': (None, lambda v: isinstance(v, list) and all(isinstance(x, InnerRec) for x in v))}
 
@@ -441,7 +447,7 @@ def _leaf_type_names():
     for key in LAPP.interface.classes:
         if key.startswith('{') and '}' in key:
             ns, name = key[1:].split('}', 1)
-            pfx = {'tns': 'tns', XSD_NS: 'xs'}.get(ns)
+            pfx = {'tns': 'tns', XSD_NS: 'xs', 'http://spyne.io/schema': 'sp'}.get(ns)
             if pfx:
                 out.append(pfx + ':' + name)
     return sorted(out)
@@ -453,7 +459,7 @@ LEAF_TYPE_NAMES = _leaf_type_names()
 @harness('C04', params=[(pr, slot) for pr in sorted(LPROTS) for slot in sorted(LEAF_SLOTS)], label=lambda p: '%s slot=%s' % p,
          functions=['spyne.protocol.xml.XmlDocument.from_element'],
          bounds={'xsi:type': 'every type name registered in the interface (xs: builtins and tns: classes, arrays included) on a '
-                             'Decimal, Integer, DateTime, Date, Array(Integer) or Array(object) member; concrete conformant content'})
+                             'Decimal, Integer, DateTime, Date, Unicode, Array(Integer) or Array(object) member; concrete content conformant to the declared type, or to a type derived from it in the class hierarchy'})
 def xsi_type_retag_leaves(sx, p):
     """retagging a primitive or array member with any registered type never delivers a value of another native type (a float
     for a Decimal, a date for a DateTime, objects for integers): it is refused or read as the declared type"""
@@ -461,14 +467,15 @@ def xsi_type_retag_leaves(sx, p):
     prot = LPROTS[pr]
     xt = sx.choose('xsi_type', LEAF_TYPE_NAMES)
     text, admissible = LEAF_SLOTS[slot]
-    ns = {'tns': 'tns', None: 'tns', 'xs': XSD_NS}
+    ns = {'tns': 'tns', None: 'tns', 'xs': XSD_NS, 'sp': 'http://spyne.io/schema'}
+    name = slot.split(' ')[0]
     if slot == 'ints':
         kids = [mk_element(sx, '{tns}integer', text='1', nsmap=ns)]
     elif slot == 'recs':
         kids = [mk_element(sx, '{tns}InnerRec', children=[mk_element(sx, '{tns}v', text='1', nsmap=ns)], nsmap=ns)]
     else:
         kids = []
-    member = mk_element(sx, '{tns}' + slot, text=text, attrib={XSI_TYPE: xt}, children=kids, nsmap=ns)
+    member = mk_element(sx, '{tns}' + name, text=text, attrib={XSI_TYPE: xt}, children=kids, nsmap=ns)
     try:
         out = run_soft(lambda: prot.from_element(LCTX, LeafHolder, mk_element(sx, '{tns}h', children=[member], nsmap=ns)))
     except Exception as e:
@@ -476,7 +483,7 @@ def xsi_type_retag_leaves(sx, p):
     sx.observe('accepted', out.accepted)
     if not out.accepted:
         return is_client_validation_fault(out.fault)
-    got = getattr(out.value, slot)
+    got = getattr(out.value, name)
     sx.observe('delivered', type(got).__name__)
     return got is None or admissible(got)
 
